@@ -10,7 +10,7 @@ V="$(cd "$(dirname "$0")/.." && pwd)"
 OUT=$V/out/fuzz/$ID; rm -rf "$OUT"; mkdir -p "$OUT/corpus" "$OUT/artifacts" "$OUT/logs"
 "$V/engine/target/debug/vp" fuzzseed "$OUT/corpus" > "$OUT/seed.log" 2>&1 || { echo "FUZZ-LAYER: unavailable (cannot write the seed corpus)"; exit 3; }
 cd "$V" || exit 3
-if ! CARGO_NET_OFFLINE=true cargo +nightly fuzz build --fuzz-dir "$V/fuzz" fz_analyze > "$OUT/build.log" 2>&1; then
+if ! CARGO_NET_OFFLINE=true timeout 2400 cargo +nightly fuzz build --fuzz-dir "$V/fuzz" fz_analyze > "$OUT/build.log" 2>&1; then
   echo "FUZZ-LAYER: unavailable (cargo +nightly fuzz build failed, see $OUT/build.log)"; exit 3
 fi
 cd "$OUT/logs" || exit 3
